@@ -473,9 +473,13 @@ class Tuner:
             busy_trial_ids = None
             num_busy_workers = len(running_trials_ids)
         else:
-            # Ask backend how many workers are really busy
+            # Ask backend how many workers are really busy. Trials in
+            # ``running_trials_ids`` whose jobs have finished since the last
+            # poll still count: their final results have not been fetched yet
             busy_trial_ids = self.trial_backend.busy_trial_ids()
-            num_busy_workers = len(busy_trial_ids)
+            num_busy_workers = len(
+                running_trials_ids.union(x[0] for x in busy_trial_ids)
+            )
         if num_busy_workers >= running_trials_threshold:
             # Note: For synchronous scheduling, we need to sleep here if at
             # least one worker is busy
@@ -485,11 +489,6 @@ class Tuner:
             )
             self._sleep()
         else:
-            if not self.start_jobs_without_delay and num_busy_workers < len(
-                running_trials_ids
-            ):
-                # In this case, the information from the backend is more recent
-                running_trials_ids = set(x[0] for x in busy_trial_ids)
             # Schedule as many trials as we have free workers
             for _ in range(self.n_workers - num_busy_workers):
                 trial = self._schedule_new_task()
